@@ -35,7 +35,7 @@ PROBES = ['forged-sender', 'unicast-to-well-known-name', 'unicast-to-unique-name
           'broadcast-to-two-holders', 'broadcast-no-holder', 'destination-also-holds-rule',
           'bus-call-while-rule-holder-matches', 'no-reply-flag-forwarded', 'big-endian-forwarded',
           'variant-in-forwarded-body', 'real-client-sender', 'new-peer-mid-run',
-          'name-owner-changed-mid-run', 'sender-holds-matching-rule', 'bus-drained-then-reconnect', 'name-taken-over']
+          'name-owner-changed-mid-run', 'sender-holds-matching-rule', 'bus-drained-then-reconnect', 'name-taken-over', 'traffic-before-hello']
 COMPONENTS = {
     'real': ['txdbus.bus.Bus (messageReceived, sendMessage, dbus_AddMatch, clientConnected/'
              'Disconnected)', 'txdbus.bus.BusProtocol (tracing subclass on rawDBusMessageReceived / '
@@ -72,8 +72,15 @@ def scenario(ctx):
     vanished = []
 
     def connect(kind=None):
-        kind = kind or ds.pickw([('ref', 3), ('real', 1.5)])
-        rec = rig.add_peer(unix=ds.flag(0.3)) if kind == 'ref' else rig.add_client()
+        kind = kind or ds.pickw([('ref', 3), ('real', 1.5), ('ref-nohello', 0.6)])
+        if kind == 'ref-nohello':
+            # a connection that sends other traffic before (or without ever) saying Hello: its
+            # messages carry its unique name all the same
+            rec = rig.add_peer(unix=ds.flag(0.3), hello=False)
+            rec['nohello'] = True
+            sim.probe('traffic-before-hello')
+        else:
+            rec = rig.add_peer(unix=ds.flag(0.3)) if kind == 'ref' else rig.add_client()
         peers[rec['name']] = rec
         order.append(rec['name'])
         u = rig.unique(rec)
@@ -337,6 +344,11 @@ def scenario(ctx):
         k = ds.weighted([6, 4, 2.5, 1.5, 1, 1])
         if k == 0:           # unicast
             mt = ds.pick([1, 4, 2, 3])
+            if mt == 1 and rec.get('nohello') and not rec.get('said_hello'):
+                # a call to a peer before Hello would get the connection dropped: Hello first
+                rec['said_hello'] = True
+                p.bus_call('Hello')
+                sim.log('op', rec['name'], 'late-hello')
             f = {rc.F_DESTINATION: some_dest()}
             if mt in (1, 4):
                 f[rc.F_PATH] = ds.pick(PATHS)
@@ -380,6 +392,8 @@ def scenario(ctx):
             p.bus_call('ReleaseName', 's', [ds.pick(NAMES)])
         else:
             mem = ds.pick(['GetNameOwner', 'Hello', 'GetId'])
+            if mem == 'Hello':
+                rec['said_hello'] = True
             if mem == 'GetNameOwner':
                 p.bus_call(mem, 's', [ds.pick(NAMES)])
             else:
